@@ -46,6 +46,11 @@ CLAIMED = {
     text='Every Cayley table the library constructs (S_n, A_n, D_3..D_12, C_2..C_12, (Z/n)^* n<=24, V4, Q8) is exported and the group axioms are evaluated by TLC over ALL element triples; the group is identified by isomorphism invariants (order, element-order profile, commutativity) computed by TLC from the table and from the reference construction (permutations / presentations) in the spec; the left-regular form is checked to be a faithful homomorphism. Irreducible blocks: sum d^2 = |G|, #irreps = #classes (classes computed by TLC), and for groups whose characters are all rational (decided by TLC from the table) the integer characters must be class functions satisfying row orthogonality in Z. p(N) for N<=60 against the pentagonal recurrence, the Young-diagram list against the enumerated partition set, and the Young lattice is model-checked as a state machine (every standard filling with N<=8 / 10 is a state; branching rule and standardness invariants): get_all_young_tableaux must return exactly the states of each shape, distinct, hook-length many.',
     note='NOT covered: entry-wise unitarity/homomorphism of the floating irreducible blocks, irrational character values. S_5/A_5 (order 120/60) only in thorough.',
     technique='TLA+ specs of finite groups, partitions and the Young lattice; TLC exhaustive evaluation over all triples / all lattice states; TLC trace validation of recorded library outputs'),
+ 'C16': dict(
+    cat='model_checking', ref='6/C16',
+    text='The generalised Gell-Mann basis is specified in the documented order as G_k = c_k M_k with rational c_k^2 and Gaussian-integer M_k; TLC proves for every d=2..6 (8 thorough): d^2 matrices, Hermitian, pairwise trace-orthogonal, c_k^2 Tr(M_k^2)=2, and completeness (synthesis after analysis reproduces every matrix unit, denominators cleared). The spec basis is the reference for all_gellmann_matrix / gellmann_matrix (order and entries, tensor_n=2 for d<=3), matrix_to_gellmann_basis on every matrix unit and gellmann_basis_to_matrix on every unit vector for batch shapes (), (k,), (k,l) in numpy and torch (float64; complex64/float32 at 2e-5), round trips on Gaussian-integer inputs, and the density-matrix helpers (Bloch vector, norm, squared distance) on rational density matrices.',
+    note='Linearity extends agreement on units to all matrices. Tolerances 1e-9 / 2e-5.',
+    technique='TLA+ spec of the Gell-Mann basis with exact rational normalisation; TLC proves orthogonality/completeness per dimension; basis replayed into the code'),
  'C17': dict(
     cat='model_checking', ref='6/C17',
     text='The partial trace is specified on matrix units by the mixed-radix index contraction; TLC enumerates every dimension list (length 2..3 entries 2..3 quick; length <=4 entries 2..4 thorough) and every keep subset, checking trace preservation and two-step = one-step on all units, and emits the routing table that numqi.utils.partial_trace is compared with (Gaussian-integer operators, every matrix unit for small dimensions). Dicke states: TLC derives occupation order, orbits (partition of the basis, size = multinomial, closed under qudit swaps) and proves the integer identity (count)^2 n^2 = a_r b_s M(a) M(b) that equates the library closed form sqrt(a_r b_s)/n with the reduction coefficient defined by counting; get_dicke_klist/basis/Dicke/get_dicke_number, both forms of the reduction table and the fast reduction (numpy and torch) vs explicit embedding + partial trace are compared.',
